@@ -26,6 +26,64 @@ def run(ctx, kinds=("sub", "elim"), p_constraints=0.6, nlang=None, ncase=None, p
             s = I.gen_schema(rng, spec, p_constraints=p_constraints, kinds=kinds)
             args = I.gen_args(rng, spec, s)
             one_case(ctx, spec, ops, s, args, li)
+        stress_cases(ctx, li, spec, ops, ncase // 2)
+
+
+def stress_cases(ctx, li, spec, ops, n):
+    """two-sided bounds and variable-to-variable binds: one or two variables in co-, contra- and mixed-variance contexts
+    (x, F(x), A ** x, x ** A, x ** x, x ** y), arguments from one chain of the hierarchy with wildcards and Top/Bottom mixed in"""
+    rng = ctx.rng
+    chains = []
+    for b in spec.bases():
+        if not spec.descendants(b):
+            chains.append([b] + spec.ancestors(b))
+    chains = [c for c in chains if len(c) >= 2] or chains
+    if not chains:
+        return
+    x, y = ('v', 0), ('v', 1)
+    comps = spec.compounds(builtin=False)
+    for _ in range(n):
+        ch = rng.choice(chains)
+        other = [b for b in spec.bases() if b not in ch]
+        k = (rng.choice(other), ()) if other and rng.random() < 0.5 else (rng.choice(ch), ())
+        nv = 1 if rng.random() < 0.6 else 2
+        vs = [x, y][:nv]
+
+        def ctxs(v):
+            out = [v, (G.FUN, (k, v)), (G.FUN, (v, k)), (G.FUN, (v, v))]
+            for c in comps:
+                out.append((c, tuple(v if j == 0 else k for j in range(spec.arity(c)))))
+            if nv == 2:
+                w = y if v == x else x
+                out += [(G.FUN, (v, w)), (G.FUN, (w, v))]
+            return out
+        params = [rng.choice(ctxs(rng.choice(vs))) for _ in range(rng.randint(2, 4))]
+        res = rng.choice(vs + [(G.UNIT, ())])
+        body = res
+        for p in reversed(params):
+            body = (G.FUN, (p, body))
+        s = {"nvars": nv, "nwild": 0, "body": body, "constraints": []}
+        args = []
+        for p in params:
+            counter = [0]
+
+            def inst(t):
+                if I.is_var(t):
+                    r = rng.random()
+                    if r < 0.22:
+                        counter[0] += 1
+                        return ('v', counter[0] - 1)          # a wildcard of the argument
+                    if r < 0.3:
+                        return (rng.choice([G.TOP, G.BOT]), ())
+                    return (rng.choice(ch), ())
+                return (t[0], tuple(inst(a) for a in t[1]))
+            a = inst(p)
+            if I.is_var(a):
+                a = (rng.choice(ch), ())
+                counter[0] = 0
+            args.append((counter[0], a))
+        one_case(ctx, spec, ops, s, args, li)
+        ctx.count("stress_cases")
 
 
 def one_case(ctx, spec, ops, s, args, li=0):
